@@ -53,6 +53,13 @@ static int send_buffer(struct buffered_socket *bs)
 			if (unlikely((err != resource_unavailable_try_again) &&
 						 (err != operation_would_block))) {
 				log_err("unexpected %s error: %s!", "write", get_socket_error_msg(err));
+				/*
+				 * A part of the buffered data might be on the
+				 * wire already. Nothing must follow it on this
+				 * connection but the rest, which is lost.
+				 */
+				bs->broken = true;
+				bs->to_write = 0;
 				return -1;
 			} else {
 				memmove(bs->write_buffer, write_buffer_ptr, bs->to_write);
